@@ -17,6 +17,9 @@ import (
 // scheduler itself never calls into the system under test.
 type Kernel struct {
 	R *R
+	// Eligible, when set, tells whether a parked ticket may be granted now (worlds with lock
+	// tickets: a waiter is offered only after an unlock event).
+	Eligible func(key string) bool
 
 	mu       sync.Mutex
 	parked   []*Ticket
@@ -59,6 +62,9 @@ func (k *Kernel) SetPass(b bool) { k.pass.Store(b) }
 
 // Passing reports whether gates currently pass through.
 func (k *Kernel) Passing() bool { return k.pass.Load() }
+
+// Closed reports whether Shutdown was called (teardown in progress).
+func (k *Kernel) Closed() bool { return k.closed.Load() }
 
 // Shutdown makes every current and future gate pass through (used at teardown).
 func (k *Kernel) Shutdown() {
@@ -250,6 +256,27 @@ func (k *Kernel) Drain(maxSim time.Duration) bool {
 	for {
 		synctest.Wait()
 		p := k.Parked()
+		if k.Eligible != nil {
+			// (lock waiters that cannot make progress yet are not granted: see simfs.RWLock)
+			el := p[:0:0]
+			for _, t := range p {
+				if k.Eligible(t.Key) {
+					el = append(el, t)
+				}
+			}
+			if len(el) == 0 && len(p) > 0 {
+				if total >= maxSim {
+					return false
+				}
+				k.Sleep(step)
+				total += step
+				if step < 5*time.Second {
+					step *= 4
+				}
+				continue
+			}
+			p = el
+		}
 		if len(p) > 0 {
 			k.Grant(p[0], 0)
 			step = time.Millisecond
